@@ -23,8 +23,23 @@
 #include <blocc/parser.h>
 #include <blocc/debug.h>
 
+#include <cstdint>
+
 namespace bloc
 {
+
+/* a decimal position or count, clamped to the integer range (the conversion is
+ * undefined outside of it) */
+static inline Integer clamp_to_integer(Numeric d)
+{
+  if (d != d)
+    return 0;
+  if (d >= 9223372036854775808.0)
+    return INT64_MAX;
+  if (d < -9223372036854775808.0)
+    return INT64_MIN;
+  return static_cast<Integer>(d);
+}
 
 Value& LSUBSTRExpression::value(Context & ctx) const
 {
@@ -53,7 +68,7 @@ Value& LSUBSTRExpression::value(Context & ctx) const
     case Type::NUMERIC:
       if (a1.isNull())
         return val;
-      b = Integer(*a1.numeric());
+      b = clamp_to_integer(*a1.numeric());
       break;
     default:
       throw RuntimeError(EXC_RT_FUNC_ARG_TYPE_S, KEYWORDS[oper]);
